@@ -203,7 +203,7 @@ def replay(case):
 
 
 def plan(tier):
-    return {"shards": 16, "examples": 300 if tier == "quick" else 8000, "subprocess": 10 if tier == "quick" else 125, "wall_limit": 300 if tier == "quick" else 2400}
+    return {"shards": 16, "examples": 900 if tier == "quick" else 8000, "subprocess": 10 if tier == "quick" else 125, "wall_limit": 300 if tier == "quick" else 2400}
 
 
 def run_shard(sh):
